@@ -28,10 +28,38 @@ def seeded_table():
     return "\n".join(rows)
 
 
+def checks_table():
+    reg = {}
+    for fn in sorted(glob.glob(os.path.join(V, "checks", "registry.d", "*.json"))):
+        reg[os.path.basename(fn)[:-5]] = json.load(open(fn))
+    rows = ["| id | engine | level | last evidence (tier: evaluations / distinct) | findings open / fixed | hand mutants | seeded changes caught |", "|---|---|---|---|---|---|---|"]
+    for pid in sorted(reg):
+        r = reg[pid]
+        ev = ""
+        ep = os.path.join(V, "evidence", pid + ".json")
+        if os.path.exists(ep):
+            e = json.load(open(ep))
+            ev = "%s: %s / %s" % (e.get("tier"), e["coverage"].get("evaluations"), e["coverage"].get("distinct_nontrivial"))
+        fo = ff = 0
+        fp = os.path.join(V, "findings", pid + ".json")
+        if os.path.exists(fp):
+            for f in json.load(open(fp)).get("findings", []):
+                if f["status"] == "open":
+                    fo += 1
+                else:
+                    ff += 1
+        nm = len(glob.glob(os.path.join(V, "mutants", pid, "*.diff")))
+        seeds = [json.load(open(m)) for m in sorted(glob.glob(os.path.join(V, "seeded", pid + "-*", "meta.json")))]
+        kept = [m for m in seeds if m.get("kept")]
+        caught = [m for m in kept if m.get("check_result", {}).get("caught") or m.get("caught_after")]
+        rows.append("| %s | %s | %s | %s | %d / %d | %d | %d of %d |" % (pid, r.get("engine"), r.get("level"), ev, fo, ff, nm, len(caught), len(kept)))
+    return "\n".join(rows)
+
+
 def main():
     p = os.path.join(V, "DESIGN.md")
     s = open(p).read()
-    for key, fn in (("findings", findings_table), ("seeded", seeded_table)):
+    for key, fn in (("findings", findings_table), ("seeded", seeded_table), ("checks", checks_table)):
         b, e = "<!-- BEGIN:%s -->" % key, "<!-- END:%s -->" % key
         if b in s and e in s:
             s = s[:s.index(b) + len(b)] + "\n" + fn() + "\n" + s[s.index(e):]
